@@ -34,10 +34,15 @@ loop:
 		switch self.CurrentToken.Kind {
 		case lexer.Colon:
 			segments = append(segments, self.CurrentToken.Kind.String())
-			self.next()
+			if err := self.next(); err != nil {
+				return ast.SpannedIdent{}, err
+			}
 			fallthrough
 		case lexer.Identifier:
-			self.expect(lexer.Identifier)
+			// A lexer error must end the loop: the current token would stay an identifier forever.
+			if err := self.expect(lexer.Identifier); err != nil {
+				return ast.SpannedIdent{}, err
+			}
 			segments = append(segments, self.PreviousToken.Value)
 		default:
 			break loop
